@@ -226,6 +226,26 @@ func Park(site string) {
 	}
 	t := current()
 	mu.Lock()
+	// Fast path: with no pre-emption configured and the choice vector used up, the decision at this yield
+	// point is always "the baton holder keeps running" (choice 0). It is taken - and counted and hashed -
+	// right here, without the round trip through the decision loop. The schedule is identical.
+	if cfg.PreemptPermille == 0 && choicePos >= len(cfg.Choices) && t == cur && t.st == stRunning &&
+		(cfg.DelayPermille == 0 || !siteSelectedLocked(site)) && len(stallRules) == 0 &&
+		(cfg.MaxDecisions == 0 || seq.Load() < cfg.MaxDecisions) {
+		t.site = site
+		n := seq.Add(1)
+		choicePos++
+		var b [24]byte
+		putU64(b[0:], n)
+		putU64(b[8:], uint64(t.id))
+		putU64(b[16:], strHash(site))
+		fp.Write(b[:])
+		if traceOn {
+			recentLog = append(recentLog, fmt.Sprintf("%d t%d %s @%s (fast)", n, t.id, t.name, site))
+		}
+		mu.Unlock()
+		return
+	}
 	t.st = stRunnable
 	t.site = site
 	if cfg.DelayPermille > 0 && siteSelectedLocked(site) {
